@@ -213,6 +213,19 @@ def handle (c : Case) : Verdict :=
       let (sp, why) := scmpSpec A B n c
       { corr := m == obs, spec := sp, why, model := m, nontrivial := !A.isEmpty && !B.isEmpty,
         branch := s!"scmp.{sg (lexUnsigned A B)}.{if n.isSome then "n" else "all"}" }
+  | "mvcmp" =>
+      -- a moved-from object is empty in this library (C05's model); whatever it holds, ==, != and compare must agree (C06)
+      let parts := (obs.splitOn " ").filter (· ≠ "")
+      let field (p k : String) : String := (((p.splitOn ":").getD 1 "").splitOn ",").foldl (fun acc kv => match kv.splitOn "=" with | [k', v] => if k' == k then v else acc | _ => acc) "?"
+      let okPart (p : String) : Bool :=
+        let eq := field p "eq"; let ne := field p "ne"; let req := field p "req"; let cmp := field p "cmp"
+        (eq == "1") == (cmp == "0") && (ne == "1") != (eq == "1") && req == eq && field p "self" != "0" &&
+        (field p "hash" == "?" || eq != "1" || (field p "hash" == "1" && field p "hashi" == "1" && field p "lt" == "0" && field p "cmpi" == "0"))
+      let expectB := "eq=1,ne=0,req=1,cmp=0,self=1,size=0"
+      let expectS := "eq=1,ne=0,req=1,cmp=0,cmpi=0,lt=0,hash=1,hashi=1,size=0"
+      let m := if c.get "w" == "8" then s!"c:{expectB} a:{expectB} sc:{expectS} sa:{expectS}" else s!"c:{expectB} a:{expectB}"
+      { corr := m == obs, spec := !parts.isEmpty && parts.all okPart, why := "==, != and compare() disagree on a moved-from object", model := m,
+        branch := s!"mvcmp.{c.get "w"}", nontrivial := a != "-" }
   | "scmpnull" =>
       let A := parseUnits 8 a
       let m := scmpNullModel A n
